@@ -120,6 +120,21 @@ Theorem c07_refresh : forall s u pw,
 Proof. exact refreshes. Qed.
 Print Assumptions c07_refresh.
 
+(* ... WHATEVER was stored for the user before and however recently: in every state (so after every
+   history), a login that a replica answers and the directory accepts (primary writable) is accepted,
+   the record GetSigned yields for the user afterwards is the genuine hash of the password JUST
+   accepted, signed now for 96 h, and if from then on no replica answers (any list of replicas none
+   of which is up), a login of the user is accepted for exactly that password - not for the one a
+   previous login had stored, a minute or a day ago. *)
+Theorem c07_refresh_whatever_was_stored : forall s u pw,
+  In SUp (servers s) -> dir_accepts s u pw = true -> writable (st s) = true ->
+  let s' := fst (login s u pw) in
+  snd (login s u pw) = true /\
+  get_pw true s' u = GOk (mk_jws true u pw (now (st s)) (now (st s) + 96 * 3600)) /\
+  forall svs pw', ~ In SUp svs -> snd (login (with_servers s' svs) u pw') = N.eqb pw pw'.
+Proof. exact refresh_whatever_was_stored. Qed.
+Print Assumptions c07_refresh_whatever_was_stored.
+
 (* a login that no server answers writes nothing *)
 Theorem c07_outage_login_pure : forall s u pw, ~ In SUp (servers s) -> fst (login s u pw) = s.
 Proof. exact outage_login_pure. Qed.
@@ -346,3 +361,48 @@ Example c07_backend_history :
      BAddUser (mkHow false 300 900%Z) alice 3; BLogin [65; 76; 73; 67; 69]%N 3; BLogin alice 2] =
   [Some true; None; Some false; Some true; None; Some false; None; Some true; Some false].
 Proof. vm_compute. reflexivity. Qed.
+
+(* ------------------------------------------------------------------ logins that OVERLAP in time
+   (Model/PwFlight.v): an interleaving of arrivals, backend answers and edits of the backend's table.
+   Whatever happened before login id arrived, whatever happens between its arrival and its answer (other
+   logins of the SAME user with other passwords arrive, are in flight, are answered; other users; edits),
+   the verdict of login id is the backend's verdict on its OWN (normalised name, password) on the table
+   the backend holds at the moment of that answer; and over any history the backend is asked exactly the
+   logins' own pairs, one question per login. *)
+From KM Require Model.PwFlight Proofs.PwFlight.
+
+Theorem c07_verdict_per_password :
+  (forall f0 pre mid id raw pw,
+     forallb (fun o => negb (Proofs.PwFlight.starts_id id o)) pre = true ->
+     forallb (fun o => negb (Proofs.PwFlight.mentions id o)) mid = true ->
+     let h := pre ++ PwFlight.FStart id raw pw :: mid in
+     snd (PwFlight.fstep (PwFlight.frun (PwFlight.finit f0) h) (PwFlight.FAnswer id)) =
+       [(id, file_accepts (PwFlight.table_after f0 h) (normalise raw) pw)]) /\
+  (forall f0 ops, PwFlight.f_asked (PwFlight.frun (PwFlight.finit f0) ops) = PwFlight.questions ops).
+Proof. exact Proofs.PwFlight.verdict_per_password. Qed.
+
+(* the same read off the collected outputs of a whole history (what the case files compare) *)
+Theorem c07_verdict_in_outputs : forall f0 pre mid post id raw pw,
+  forallb (fun o => negb (Proofs.PwFlight.starts_id id o)) pre = true ->
+  forallb (fun o => negb (Proofs.PwFlight.mentions id o)) mid = true ->
+  let h := pre ++ PwFlight.FStart id raw pw :: mid in
+  PwFlight.fouts (PwFlight.finit f0) (h ++ PwFlight.FAnswer id :: post) =
+    PwFlight.fouts (PwFlight.finit f0) h ++
+    (id, file_accepts (PwFlight.table_after f0 h) (normalise raw) pw)
+      :: PwFlight.fouts (PwFlight.frun (PwFlight.finit f0) (h ++ [PwFlight.FAnswer id])) post.
+Proof. exact Proofs.PwFlight.verdict_in_outputs. Qed.
+
+(* NOT the code: one question per USER NAME at a time (a login that arrives while a question about its
+   user waits for the answer takes that answer).  The right password in flight: a wrong one is accepted
+   and the backend is never asked about it; a wrong one in flight: the right one is refused. *)
+Theorem c07_single_flight_refuted :
+  let a := Proofs.PwFlight.fl_alice in
+  let f := [(a, 1%N)] in
+  let h1 := [PwFlight.FStart 0 a 1; PwFlight.FStart 1 a 2; PwFlight.FAnswer 1; PwFlight.FAnswer 0] in
+  let h2 := [PwFlight.FStart 0 a 2; PwFlight.FStart 1 a 1; PwFlight.FAnswer 1; PwFlight.FAnswer 0] in
+  PwFlight.gouts (PwFlight.ginit f) h1 = [(0%N, true); (1%N, true)] /\
+  PwFlight.f_asked (PwFlight.g_base (PwFlight.grun (PwFlight.ginit f) h1)) = [(a, 1%N)] /\
+  PwFlight.fouts (PwFlight.finit f) h1 = [(1%N, false); (0%N, true)] /\
+  PwFlight.gouts (PwFlight.ginit f) h2 = [(0%N, false); (1%N, false)] /\
+  PwFlight.fouts (PwFlight.finit f) h2 = [(1%N, true); (0%N, false)].
+Proof. exact Proofs.PwFlight.single_flight_refuted. Qed.
